@@ -50,7 +50,8 @@ def expect_entry(hdr, ancestor):
     return {"meta": mm + rsk.coinbase_hash(hdr["full_cb"]), "bytes": hdr["raw"], "brothers": []}
 
 
-def gen_blocks_request(ch, cfg, ancestor=None):
+def gen_blocks_request(ch, cfg, ancestor=None, earlier=None):
+    """earlier: headers sent earlier in the same manager lifetime (list, appended to)"""
     if ancestor is None:
         ancestor = ch.draw(3, "cmd.ancestor") == 1
     nblocks = ch.pick([1, 2, 3, cfg["max_blocks"]], "nblocks")
@@ -64,6 +65,12 @@ def gen_blocks_request(ch, cfg, ancestor=None):
     for i in range(nblocks):
         nf = ch.pick([19, 20], "nf") if not ancestor else ch.pick([19, 20, 17, 18], "nf")
         hdr = rsk.gen_header(ch, nfields=nf, parent=parent, tiny=tiny, max_cb=cfg["max_cb"])
+        if earlier and not ancestor and not tiny and ch.draw(3, "twin-of-earlier") == 1:
+            # the same header again with another merge-mining proof / coinbase transaction
+            hdr = rsk.twin_header(ch, earlier[ch.draw(len(earlier), "twin.which")], cfg["max_cb"])
+            nf = hdr["nfields"]
+        if earlier is not None and not tiny and hdr["nfields"] in (19, 20):
+            earlier.append(hdr)
         nfset.add(nf)
         blocks.append(hdr["raw"].hex())
         e = expect_entry(hdr, ancestor)
@@ -74,7 +81,11 @@ def gen_blocks_request(ch, cfg, ancestor=None):
             for j in range(nb):
                 b = rsk.gen_header(ch, nfields=ch.pick([19, 20], "bro.nf"), parent=parent,
                                    max_cb=200)
+                if earlier and ch.draw(4, "bro.twin-of-earlier") == 1:
+                    b = rsk.twin_header(ch, earlier[ch.draw(len(earlier), "bro.twin.which")], 200)
                 h = rsk.block_hash(b)
+                if h == rsk.block_hash(hdr):
+                    continue
                 if h in seen:
                     continue
                 seen.add(h)
@@ -147,7 +158,9 @@ def run_one(ch, cfg):
 
 def _one_request(w, ch, cfg):
     dev = w.device
-    req, exp, info = gen_blocks_request(ch, cfg)
+    if not hasattr(w, "earlier_headers"):
+        w.earlier_headers = []
+    req, exp, info = gen_blocks_request(ch, cfg, earlier=w.earlier_headers)
     ancestor, nblocks, nfset = info["ancestor"], info["nblocks"], info["nfset"]
     nbro_total, ask, stopclass, tiny = info["nbro_total"], info["ask"], info["stopclass"], info["tiny"]
     stop, brothers, blocks = info["stop"], info["brothers"], info["blocks"]
